@@ -1,4 +1,5 @@
 import Tmv.Lemmas.PipelineInv
+import Tmv.Lemmas.PipelinePlan
 import Tmv.Lemmas.MempoolLock
 /-! # C05 — The application sees each block exactly once, in order, even across crashes
 Property theorems only. Quantification: every chain `c` (block contents opaque), every sequence
@@ -19,21 +20,29 @@ def SInv (c : Chain) (s : Sys) : Prop :=
       s.disk.genesisSaved = true)
 
 theorem genesis_inv (c : Chain) : SInv c genesis :=
-  ⟨⟨0, .inl ⟨0, Nat.le_refl 0, .inl ⟨rfl, rfl, rfl, ⟨rfl, rfl, rfl, rfl⟩⟩⟩⟩,
+  ⟨⟨0, .inl ⟨0, Nat.le_refl 0, .inl ⟨rfl, rfl, rfl, ⟨rfl, rfl, rfl, rfl⟩,
+      ⟨Nat.zero_le _, Nat.le_refl 0, Nat.le_refl 0⟩⟩⟩⟩,
     ⟨.inl (Nat.le_refl 0), fun _ => rfl⟩, by simp [genesis, GenOK], by simp [genesis]⟩
 
 theorem winv_crash {c : Chain} {d : Disk} (h : WInv c d) : WInv c (crash d) := h
 theorem genOK_crash {d : Disk} (h : GenOK d) : GenOK (crash d) := h
 
-theorem inv_restore {c : Chain} {d : Disk} (h : Inv c d) (j : Nat) :
+theorem inv_restore {c : Chain} {d : Disk} (h : Inv c d) (j : Nat)
+    (hb : d.storeBase ≤ nxt c (d.app.restore j).height) (hs : d.statesBase ≤ (d.app.restore j).height) :
     Inv c { d with app := d.app.restore j } := by
   obtain ⟨k, ⟨a, hak, h | h⟩ | ⟨h, hr⟩⟩ := h
-  · exact ⟨k, .inl ⟨a - j, by omega, .inl ⟨h.stateH, h.stateHash, h.storeH, h.app.restore j⟩⟩⟩
-  · exact ⟨k, .inl ⟨a - j, by omega, .inr ⟨h.stateH, h.stateHash, h.storeH, h.app.restore j⟩⟩⟩
-  · by_cases hj : j = 0
+  · have hh := (h.app.restore j).height
+    rw [hh] at hs; rw [hh, nxt_ht] at hb
+    exact ⟨k, .inl ⟨a - j, by omega, .inl ⟨h.stateH, h.stateHash, h.storeH, h.app.restore j, hb, hs, h.pr.2.2⟩⟩⟩
+  · have hh := (h.app.restore j).height
+    rw [hh] at hs; rw [hh, nxt_ht] at hb
+    exact ⟨k, .inl ⟨a - j, by omega, .inr ⟨h.stateH, h.stateHash, h.storeH, h.app.restore j, hb, hs, h.pr.2.2⟩⟩⟩
+  · have hh := (h.app.restore j).height
+    rw [hh] at hs; rw [hh, nxt_ht] at hb
+    by_cases hj : j = 0
     · subst hj
-      exact ⟨k, .inr ⟨⟨h.stateH, h.stateHash, h.storeH, h.app.restore 0⟩, hr⟩⟩
-    · exact ⟨k, .inl ⟨k + 1 - j, by omega, .inr ⟨h.stateH, h.stateHash, h.storeH, h.app.restore j⟩⟩⟩
+      exact ⟨k, .inr ⟨⟨h.stateH, h.stateHash, h.storeH, h.app.restore 0, h.pr⟩, hr⟩⟩
+    · exact ⟨k, .inl ⟨k + 1 - j, by omega, .inr ⟨h.stateH, h.stateHash, h.storeH, h.app.restore j, hb, hs, h.pr.2.2⟩⟩⟩
 
 theorem step_inv (c : Chain) (s : Sys) (op : Op) (h : SInv c s) : SInv c (stepSys c s op) := by
   obtain ⟨hinv, hwinv, hgen, hupc⟩ := h
@@ -70,7 +79,10 @@ theorem step_inv (c : Chain) (s : Sys) (op : Op) (h : SInv c s) : SInv c (stepSy
       exact ⟨hinv, hwinv, hgen, hupc⟩
   | rollback j =>
     simp only [stepSys]
-    exact ⟨inv_restore hinv j, hwinv, hgen, by simp⟩
+    split
+    · rename_i hg
+      exact ⟨inv_restore hinv j hg.1 hg.2, hwinv, hgen, by simp⟩
+    · exact ⟨hinv, hwinv, hgen, by simp⟩
 
 theorem run_inv (c : Chain) (s : Sys) (ops : List Op) (h : SInv c s) : SInv c (runSys c s ops) := by
   induction ops generalizing s with
@@ -290,11 +302,6 @@ theorem signed_vote_is_replayable (c : Chain) (ops : List Op) :
     d.pvH = nxt c d.storeH → d.walEnd = d.storeH :=
   (reachable_inv c ops).2.1.2
 
-theorem ht_le (c : Chain) {a b : Nat} (h : a ≤ b) : ht c a ≤ ht c b := by
-  rcases Nat.lt_or_eq_of_le h with e | e
-  · exact Nat.le_of_lt (ht_lt c e)
-  · rw [e]; exact Nat.le_refl _
-
 /-- the three persisted cursors after any history: the store is at the state or exactly one block
 ahead (the genesis InitialHeight counts as the block after 0), the application never ahead of the
 store -/
@@ -331,6 +338,87 @@ example : (handshake exChain (runSys exChain genesis (exOps.take 5)).disk).branc
 example : (handshake exChain (runSys exChain genesis (exOps.take 3)).disk).branch = .lastReal := by decide
 example : (handshake exChain (runSys exChain genesis (exOps.take 8)).disk).branch = .replayNoMutate := by decide
 example : (runSys exChain genesis (exOps.take 3)).disk.storeH = 5 ∧ (runSys exChain genesis (exOps.take 3)).disk.stateH = 0 := by decide
+
+/-! ## the node stream's model is this model: the incarnation plan is sound -/
+
+/-- **plan_sound.** For every chain, every target, and EVERY sequence of fail indices (`none` = an
+incarnation without FAIL_TEST_INDEX), the disk the incarnation plan predicts after all
+incarnations — fail points at the code's call sites, own votes replayed / refused / stale, the
+clean stop at the target — is one the pipeline invariant covers: its journal is accepted by the
+grammar and ends at the height the application reports, and a further restart completes with the
+three cursors and the app hash in agreement. The per-incarnation predictions the node stream
+compares with the real node are therefore consequences of the proved pipeline model. -/
+theorem plan_sound (c : Chain) (exitH mh : Nat) (fs : List (Option Nat)) :
+    let d := runIncs c exitH mh fs genesis.disk
+    journalWF c d.app.journal = true ∧
+      jrun c ⟨0, none⟩ d.app.journal = some ⟨d.app.height, none⟩ ∧
+      (handshake c d).outcome = .ok ∧
+      (let s' := stepSys c ⟨d, false, false⟩ (.start none)
+       s'.up = true ∧ s'.disk.app.height = s'.disk.storeH ∧ s'.disk.storeH = s'.disk.stateH ∧
+         s'.disk.app.hash = s'.disk.stateHash) := by
+  have hi := runIncs_sound (c := c) exitH mh fs genesis.disk (genesis_inv c).1 (genesis_inv c).2.2.1
+  obtain ⟨hok, _, ⟨m, hg⟩, _, _⟩ := handshake_run hi.1 hi.2
+  obtain ⟨_, ⟨m', hg'⟩, _⟩ := start_run' hi.1 hi.2
+  refine ⟨?_, ?_, hok, ?_⟩
+  · obtain ⟨k, ⟨a, _, h | h⟩ | ⟨h, _⟩⟩ := hi.1 <;> simp [journalWF, h.app.run]
+  · obtain ⟨k, ⟨a, _, h | h⟩ | ⟨h, _⟩⟩ := hi.1 <;> rw [h.app.run, h.app.height]
+  · simp only [stepSys, runProg, hok]
+    refine ⟨by simp, ?_, ?_, ?_⟩
+    · simp [hg'.app.height, hg'.storeH]
+    · simp [hg'.storeH, hg'.stateH]
+    · simp [hg'.app.hash, hg'.stateHash]
+
+/-- each incarnation's reported post-handshake disk is synced (what the node stream compares as
+`post`), whatever state the previous incarnations left -/
+theorem plan_post_synced (c : Chain) (exitH mh : Nat) (fs : List (Option Nat)) (f : Option Nat) (post : Disk)
+    (hp : (incarnation c (runIncs c exitH mh fs genesis.disk) f exitH mh).2.1 = some post) :
+    post.app.height = post.storeH ∧ post.storeH = post.stateH ∧ post.app.hash = post.stateHash := by
+  have hi := runIncs_sound (c := c) exitH mh fs genesis.disk (genesis_inv c).1 (genesis_inv c).2.2.1
+  obtain ⟨m, hg⟩ := (incarnation_sound hi.1 hi.2 f exitH mh).2.2 post hp
+  exact ⟨by rw [hg.app.height, hg.storeH], by rw [hg.storeH, hg.stateH], by rw [hg.app.hash, hg.stateHash]⟩
+
+/-- the plan is exercised: three kills (first block's commit, a vote fail point, during recovery) then a clean run to the target -/
+example : (runIncs exChain 8 4 [some 7, some 0, some 2, none] genesis.disk).app.height = 7 := by decide
+
+/-! ## pruning (the application's RetainHeight): the theorems above range over chains with any
+`retain` function — `finalizeCommit` prunes the block store and then the state store, a crash may
+fall between the two. What they assume about restores is the guard of `Op.rollback`. -/
+
+/-- an application that asks to retain only the block just committed -/
+def prChain : Chain := { txs := fun h => [h], retain := fun h => h }
+def prOps : List Op := [.start none, .commit none, .commit none, .commit none]
+
+/-- pruned to the last block: base = state-store horizon = 3 -/
+example : (runSys prChain genesis prOps).disk.storeBase = 3 ∧ (runSys prChain genesis prOps).disk.statesBase = 3 := by decide
+/-- a crash between PruneBlocks and PruneStates (block store pruned, state store not yet), then recovery and progress -/
+example : let s := runSys prChain genesis [.start none, .commit none, .commit none, .commit (some 11), .start none]
+    s.up = true ∧ s.disk.stateH = 3 ∧ s.disk.storeBase = 3 ∧ s.disk.statesBase = 2 := by decide
+example : let s := runSys prChain genesis [.start none, .commit none, .commit none, .commit (some 11), .start none, .commit none]
+    s.up = true ∧ s.disk.stateH = 4 ∧ s.disk.storeBase = 4 ∧ s.disk.statesBase = 4 := by decide
+
+/-- **too_old_snapshot_refused** (instance): an application restored from a snapshot below the
+block store's base - 1 is refused with ErrAppBlockHeightTooLow; nothing is sent to it. -/
+theorem too_old_snapshot_refused :
+    let d := (runSys prChain genesis prOps).disk
+    let r := handshake prChain { d with app := d.app.restore 2 }
+    r.outcome = .errAppTooLow ∧ r.effs = [] := by decide
+
+/-- **replay_at_base_panics** (`handshake_total` fails without the second half of the rollback
+guard): `ReplayBlocks` accepts an application exactly one block below the block store's base
+("can be 1 behind since we replay the next") but replaying the block at the base needs the
+validator set of base - 1, which `PruneStates(base, retainHeight)` has removed: the node panics
+"could not find validator set" on every start. Known finding. -/
+theorem replay_at_base_panics :
+    let d := (runSys prChain genesis prOps).disk
+    let d' := { d with app := d.app.restore 1 }
+    ¬ (0 < d'.app.height ∧ d'.app.height < d'.storeBase - 1) ∧ d'.storeBase ≤ nxt prChain d'.app.height ∧
+      (handshake prChain d').outcome = .panicValsPruned := by decide
+
+/-- `handshake_total_partial` is `handshake_total` itself: it holds for every history whose
+restores keep the application at or above the state store's pruning horizon (the guard in
+`stepSys`); the unguarded statement is refuted by `replay_at_base_panics`. -/
+theorem handshake_total_partial (c : Chain) (ops : List Op) :
+    (handshake c (runSys c genesis ops).disk).outcome = .ok := handshake_total c ops
 
 /-! ## mempool: no new-transaction check in the commit window -/
 section Mempool
@@ -466,6 +554,28 @@ theorem no_check_in_commit_window_v1_partial (p : Nat) (evs : List Ev) (s : MS)
   have hi : I1 s := I1.run (s := { pool := p }) ⟨by simp⟩ h
   intro i
   simp [MempoolLock.step, hi.cw hc]
+
+/-- **v1 over the asynchronous FIFO connection** — what holds: while the commit request is
+outstanding no new `CheckTx` can pass its prelude, and a pending `FlushSync` is not answered while a
+request queued before it is unanswered (so checks queued BEFORE the flush are answered before the
+commit is requested). -/
+theorem no_check_in_commit_window_v1_async_partial (p : Nat) (evs : List Ev) (s : MS)
+    (h : run .v1a { pool := p } evs = some s) :
+    (s.cpc = .commitGate → ∀ i, (step .v1a s (.prelude i)).isNone) ∧
+      (s.cpc = .flushGate → 0 < s.flushAfter → step .v1a s .relFlush = none) := by
+  have hi : I1A s := I1A.run (s := { pool := p }) ⟨by simp, by simp⟩ h
+  refine ⟨fun hc i => ?_, fun hc hf => ?_⟩
+  · simp [MempoolLock.step, hi.cw hc]
+  · have : s.flushAfter ≠ 0 := by omega
+    simp [MempoolLock.step, hc, this]
+
+/-- … and what does not (known finding, same root as for the local client): `FlushAppConn` gives
+the lock up while it waits, a `CheckTx` that passes its prelude then is queued behind the flush and
+is in flight when the commit is requested. -/
+theorem check_in_commit_window_v1_async :
+    ∃ evs s, run .v1a {} evs = some s ∧ s.cpc = .commitGate ∧ checkInFlight s = true := by
+  refine ⟨[.spawnCheck 1, .prelude 1, .spawnCommit, .lockCommit, .spawnCheck 2, .prelude 2, .relCheck 1, .relFlush,
+    .relockCommit], _, rfl, ?_, ?_⟩ <;> decide
 
 /-- the hypothesis of the partial statement is reachable with a check in flight -/
 example : ∃ s, run .v1 {} [.spawnCheck 1, .prelude 1, .spawnCommit, .lockCommit, .relFlush, .relockCommit] = some s
